@@ -93,7 +93,7 @@ History ==
                 PowerStatsBytes(<<1, 5, 2>>, a), PowerStatsBytes(<<1, 5, 2>>, c), PowerStatsExpected(<<1, 5, 2>>, c))
           : a \in PeriodLists, c \in {ps \in PeriodLists : Len(ps) <= 5} }
   \cup { After("GetDCMISensorInfoRsp", ToString(a) \o "-then-" \o ToString(c), SensorInfoBytes(a, [i \in 1..a |-> 1000 + i]),
-                SensorInfoBytes(9, [i \in 1..c |-> 7 * i]), [Instances |-> 9, RecordIDs |-> [i \in 1..c |-> 7 * i]]) : a \in {0, 1, 3, 8}, c \in {0, 1, 2, 8} }
+                SensorInfoBytes(9, [i \in 1..c |-> 7 * i]), [Instances |-> 9, RecordIDs |-> [i \in 1..c |-> 7 * i]]) : a \in {0, 1, 3, 8, 9, 40}, c \in {0, 1, 2, 8, 9, 17, 100} }
   \cup { After("GetChannelCipherSuitesRsp", ToString(a) \o "-then-" \o ToString(c), <<14>> \o [i \in 1..a |-> 200 + i],
                 <<1>> \o [i \in 1..c |-> i], [Channel |-> 1, CipherSuiteRecordsChunk |-> [i \in 1..c |-> i]]) : a \in {0, 5, 16}, c \in {0, 3, 16} }
 
@@ -153,7 +153,9 @@ CapsReuse ==
 \* variable-length layers without a fixed table: DCMI sensor info (count + record IDs), cipher suite chunks
 VarReuse ==
   LET si == { <<"n0", SensorInfoBytes(0, <<>>)>>, <<"n1", SensorInfoBytes(9, <<4660>>)>>, <<"n3", SensorInfoBytes(3, <<1, 2, 3>>)>>,
-              <<"n8", SensorInfoBytes(12, <<11, 12, 13, 14, 15, 16, 17, 18>>)>>, <<"n2", SensorInfoBytes(2, <<65534, 258>>)>> }
+              <<"n8", SensorInfoBytes(12, <<11, 12, 13, 14, 15, 16, 17, 18>>)>>, <<"n2", SensorInfoBytes(2, <<65534, 258>>)>>,
+              <<"n9", SensorInfoBytes(20, [i \in 1..9 |-> 100 + i])>>, <<"n20", SensorInfoBytes(20, [i \in 1..20 |-> 300 + i])>>,
+              <<"n127", SensorInfoBytes(127, [i \in 1..127 |-> 1000 + i])>> }
       cs == { <<"c0", <<14>>>>, <<"c16", <<14>> \o [i \in 1..16 |-> i]>>, <<"c5", <<1, 192, 3, 1, 65, 129>>>> }
   IN { [id |-> "GetDCMISensorInfoRsp/" \o a[1] \o "->" \o c[1], prop |-> "C17", kind |-> "reuse", layer |-> "GetDCMISensorInfoRsp", class |-> a[1] \o "->" \o c[1],
         first |-> a[2], second |-> c[2], exp |-> [any |-> TRUE]] : a \in si, c \in si }
